@@ -134,9 +134,9 @@ def audit(pid, modules, thms, timeout):
             f.write("#print axioms %s\n" % name)
     rc, out, dt = sh(["lake", "env", "lean", path], cwd=LEAN, timeout=timeout)
     res = {}
-    for m in re.finditer(r"'([^']+)' depends on axioms: \[([^\]]*)\]", out):
+    for m in re.finditer(r"^'(.+)' depends on axioms: \[([^\]]*)\]", out, re.M):
         res[m.group(1)] = [a.strip() for a in m.group(2).replace("\n", " ").split(",") if a.strip()]
-    for m in re.finditer(r"'([^']+)' does not depend on any axioms", out):
+    for m in re.finditer(r"^'(.+)' does not depend on any axioms", out, re.M):
         res[m.group(1)] = []
     bad = {}
     for name, _, _ in thms:
